@@ -1,10 +1,29 @@
 //! One module per property: alphabets, bounds, oracles.
 use crate::engine::{AnySection, Report, RunCfg};
 
+pub mod c01;
+pub mod c02;
+pub mod c03;
+pub mod c04;
+pub mod c05;
+pub mod c06;
+pub mod c07;
 pub mod c08;
+pub mod c09;
+pub mod c10;
+pub mod c11;
+pub mod c12;
+pub mod c13;
+pub mod c14;
+pub mod c15;
+pub mod c16;
+pub mod c17;
+pub mod c18;
+pub mod c19;
+pub mod c20;
 
 pub fn ids() -> Vec<&'static str> {
-    vec!["C08"]
+    vec!["C01", "C02", "C03", "C04", "C05", "C06", "C07", "C08", "C09", "C10", "C11", "C12", "C13", "C14", "C15", "C16", "C17", "C18", "C19", "C20"]
 }
 
 pub fn level(id: &str) -> &'static str {
@@ -16,7 +35,26 @@ pub fn level(id: &str) -> &'static str {
 
 pub fn sections(id: &str, cfg: &RunCfg) -> Option<Vec<Box<dyn AnySection>>> {
     Some(match id {
+        "C01" => c01::sections(cfg),
+        "C02" => c02::sections(cfg),
+        "C03" => c03::sections(cfg),
+        "C04" => c04::sections(cfg),
+        "C05" => c05::sections(cfg),
+        "C06" => c06::sections(cfg),
+        "C07" => c07::sections(cfg),
         "C08" => c08::sections(cfg),
+        "C09" => c09::sections(cfg),
+        "C10" => c10::sections(cfg),
+        "C11" => c11::sections(cfg),
+        "C12" => c12::sections(cfg),
+        "C13" => c13::sections(cfg),
+        "C14" => c14::sections(cfg),
+        "C15" => c15::sections(cfg),
+        "C16" => c16::sections(cfg),
+        "C17" => c17::sections(cfg),
+        "C18" => c18::sections(cfg),
+        "C19" => c19::sections(cfg),
+        "C20" => c20::sections(cfg),
         _ => return None,
     })
 }
@@ -24,7 +62,26 @@ pub fn sections(id: &str, cfg: &RunCfg) -> Option<Vec<Box<dyn AnySection>>> {
 /// rule / assumptions text of the evidence
 pub fn describe(id: &str, rep: &Report) {
     match id {
+        "C01" => c01::describe(rep),
+        "C02" => c02::describe(rep),
+        "C03" => c03::describe(rep),
+        "C04" => c04::describe(rep),
+        "C05" => c05::describe(rep),
+        "C06" => c06::describe(rep),
+        "C07" => c07::describe(rep),
         "C08" => c08::describe(rep),
+        "C09" => c09::describe(rep),
+        "C10" => c10::describe(rep),
+        "C11" => c11::describe(rep),
+        "C12" => c12::describe(rep),
+        "C13" => c13::describe(rep),
+        "C14" => c14::describe(rep),
+        "C15" => c15::describe(rep),
+        "C16" => c16::describe(rep),
+        "C17" => c17::describe(rep),
+        "C18" => c18::describe(rep),
+        "C19" => c19::describe(rep),
+        "C20" => c20::describe(rep),
         _ => {}
     }
 }
